@@ -169,6 +169,10 @@ func (aead *aesCBCAEAD) Seal(dst, nonce, plaintext, additionalData []byte) []byt
 }
 
 func (aead *aesCBCAEAD) Open(dst, nonce, ciphertext, additionalData []byte) ([]byte, error) {
+	// Unlike Seal, Open can report a nonce of the wrong size as an error (cipher.NewCBCDecrypter panics on it)
+	if len(nonce) != aes.BlockSize {
+		return nil, errors.New("invalid nonce size")
+	}
 	if len(ciphertext) < aead.tagSize {
 		return nil, errors.New("invalid ciphertext size")
 	}
